@@ -6462,8 +6462,11 @@ impl Nudge {
         let exact = (truncated.get() as f64)
             + (numer / denom) * (sign.get() as f64) * (increment.get() as f64);
         let rounded = mode.round_float(exact, increment);
-        let grew_big_unit =
-            ((rounded.get() as f64) - exact).signum() == (sign.get() as f64);
+        // `rounded` is either `truncated` or one increment further from
+        // zero. (Comparing the sign of `rounded - exact` instead mistakes an
+        // exact value, whose difference is `0.0`, for growth of a positive
+        // span.)
+        let grew_big_unit = rounded != truncated;
 
         let span = span
             .try_units_ranged(smallest, rounded.rinto())
